@@ -159,7 +159,87 @@ def fold_minus(tree):
     return t
 
 
-def probe(schema, dialect, text, rng, history=True):
+EDGE = [0, 0.0, '', False, None, -3, -2.5, "it's", 'a"b', "'", 'x y', True, 1, 2.5]
+
+
+def lit(v, like=None):
+    """the node of the literal `v` written inline (None is NULL), with alias / parentheses of `like`"""
+    from mindsdb_sql.parser.ast import Constant, NullConstant
+    kw = dict(alias=like.alias, parentheses=like.parentheses) if like is not None else {}
+    return NullConstant(**kw) if v is None else Constant(v, **kw)
+
+
+def replace_nodes(tree, f):
+    """generic (walker-independent) replacement: f(node) -> new node or None, over every reachable node"""
+    t = copy.deepcopy(tree)
+    num = walkspec.Numbering(t)
+    for k in range(len(num.nodes) - 1, 0, -1):
+        new = f(num.nodes[k])
+        if new is not None:
+            pk, attr, path = num.parent[k]
+            walkspec.set_child(num.nodes[pk], attr, path, new)
+    return t
+
+
+def written_inline(tree, sent, vals):
+    """the statement parsed with unique numbers at the placeholder positions -> the same tree with the i-th value
+    written at the i-th textual position (value and type exactly as given).  Raises when a position cannot be
+    expressed (`- ?` with a non-number: the parser folded the minus into the number)."""
+    from mindsdb_sql.parser.ast import Constant
+    pos = {s: i for i, s in enumerate(sent)}
+    hit = set()
+
+    def f(n):
+        if type(n) is Constant and not isinstance(n.value, bool) and isinstance(n.value, int):
+            if n.value in pos:
+                hit.add(pos[n.value])
+                return lit(vals[pos[n.value]], n)
+            if -n.value in pos:
+                v = vals[pos[-n.value]]
+                if isinstance(v, bool) or not isinstance(v, (int, float)):
+                    raise ValueError('folded minus')
+                hit.add(pos[-n.value])
+                return lit(-v, n)
+    t = replace_nodes(tree, f)
+    if len(hit) != len(sent):
+        raise ValueError('positions lost')
+    return t
+
+
+def none_as_null(tree):
+    from mindsdb_sql.parser.ast import Constant
+    return replace_nodes(tree, lambda n: lit(None, n) if type(n) is Constant and n.value is None else None)
+
+
+def consts(obj, seen=None, depth=0):
+    """every constant below obj (AST nodes, plan steps, lists, dicts) as (class, repr(value), type of value)"""
+    A = walkspec.astnode()[0]
+    seen = set() if seen is None else seen
+    out = []
+    if id(obj) in seen or depth > 60:
+        return out
+    if isinstance(obj, (list, tuple)):
+        for x in obj:
+            out += consts(x, seen, depth + 1)
+    elif isinstance(obj, dict):
+        for x in obj.values():
+            out += consts(x, seen, depth + 1)
+    elif isinstance(obj, A) or type(obj).__module__.startswith('mindsdb_sql.planner'):
+        seen.add(id(obj))
+        if isinstance(obj, A) and type(obj).__name__ in ('Constant', 'NullConstant'):
+            out.append((type(obj).__name__, repr(obj.value), type(obj.value).__name__))
+        for x in vars(obj).values():
+            out += consts(x, seen, depth + 1)
+    return out
+
+
+def same_tree(a, b):
+    """equal as statements (ASTNode.__eq__, unary minus on numbers folded) and constant by constant in value and type"""
+    fa, fb = fold_minus(a), fold_minus(b)
+    return fa == fb and consts(fa) == consts(fb)
+
+
+def probe(schema, dialect, text, rng, history=True, values=None):
     """returns list of failures dict(kind, detail, causes)"""
     from mindsdb_sql import parse_sql
     from mindsdb_sql.planner import utils
@@ -179,28 +259,42 @@ def probe(schema, dialect, text, rng, history=True):
     if len(found) != n_text:
         fails.append(dict(kind='count', detail='prepare reports %d parameters, the text has %d placeholders' % (len(found), n_text),
                           causes=get_causes()))
-    vals = [VAL0 + i for i in range(len(found))]
+    # the values: falsy and edge values as well as ordinary ones; `sent` are unique numbers used to find the
+    # textual positions in the statement with literals written in
+    sent = [VAL0 + i for i in range(len(found))]
+    vals = [rng.choice(EDGE) if rng.random() < 0.6 else VAL0 + i for i in range(len(found))]
+    if values == 'distinct':
+        vals = list(sent)
+    elif values is not None:
+        vals = list(values)[:len(found)] + sent[len(values):]
     filled = utils.fill_query_params(copy.deepcopy(tree), list(vals))
     inl = None
     if len(found) == n_text:
         try:
-            inl = parse_sql(inline(text, vals), dialect)
+            inl = written_inline(parse_sql(inline(text, sent), dialect), sent, vals)
         except Exception:
             inl = None      # the statement with literals written in is not a statement of the dialect: nothing to compare with
     if inl is not None:
-        if not (filled == inl) and not (fold_minus(filled) == fold_minus(inl)):
-            # is the difference only that the new constants drop the placeholder's alias / parentheses?
+        if not same_tree(filled, inl):
             from mindsdb_sql.parser.ast import Constant, Parameter
             vs = list(vals)
 
             def keep(node, **kw):
                 if isinstance(node, Parameter):
-                    return Constant(vs.pop(0), alias=node.alias, parentheses=node.parentheses)
+                    return lit(vs.pop(0), node)      # Constant(value) / NULL for None, alias and parentheses kept
             t2 = copy.deepcopy(tree)
             utils.query_traversal(t2, keep)
-            cs = ['fill/drops-alias-parentheses'] if fold_minus(t2) == fold_minus(inl) else get_causes()
-            fails.append(dict(kind='binding', detail='filled: %s | inlined: %s' % (filled.to_string()[:300].replace('\n', ' '),
-                                                                                   inl.to_string()[:300].replace('\n', ' ')),
+            if same_tree(none_as_null(filled), inl):
+                cs = ['fill/none-not-null']          # only: a bound None is Constant(None) (prints `None`), not NULL
+            elif same_tree(t2, inl):
+                cs = ['fill/not-Constant(value,alias,parentheses)']
+            elif same_tree(none_as_null(t2), inl):
+                cs = ['fill/not-Constant(value,alias,parentheses)', 'fill/none-not-null']
+            else:
+                cs = get_causes() + (['fill/none-not-null'] if consts(none_as_null(filled)) != consts(filled) else [])
+            fails.append(dict(kind='binding', values=list(vals),
+                              detail='values %r | filled: %s | inlined: %s' % (vals, filled.to_string()[:300].replace('\n', ' '),
+                                                                              inl.to_string()[:300].replace('\n', ' ')),
                               causes=cs))
         # through the planner: prepare / execute vs planning the inlined statement
         pl = new_planner()
@@ -210,7 +304,7 @@ def probe(schema, dialect, text, rng, history=True):
             fails.append(dict(kind='count', detail='get_statement_info reports %s' % (info,), causes=get_causes()))
         a = outcome(lambda: plan_steps(pl.execute_steps(list(vals))))
         b = outcome(lambda: list(new_planner().from_query(inl).steps))
-        same = a[0] == b[0] and (a[0] != 'ok' or a[1] == b[1])
+        same = a[0] == b[0] and (a[0] != 'ok' or (a[1] == b[1] and consts(a[1]) == consts(b[1])))
         if not same and not any(f['kind'] == 'binding' for f in fails) and not re.search(r'-\s*\(?\s*\?', text):
             fails.append(dict(kind='plan', detail='execute_steps: %s %s | inlined: %s %s' % (a[0], str(a[1])[:200], b[0], str(b[1])[:200]),
                               causes=get_causes()))
@@ -382,7 +476,7 @@ def run(chk):
             continue
         w = k['witness']
         try:
-            fs = probe(schema, w['dialect'], w['sql'], rng)
+            fs = probe(schema, w['dialect'], w['sql'], rng, values=w.get('values', 'distinct'))
             for f in fs:
                 cs = f.get('causes') or []
                 if cs:
@@ -405,7 +499,7 @@ def replay(path):
         print(json.dumps(data, indent=1)[:3000])
         return 1
     schema = walkrun.load_schema()
-    fs = probe(schema, f['dialect'], f['text'], common.rng_for(0, 'replay'))
+    fs = probe(schema, f['dialect'], f['text'], common.rng_for(0, 'replay'), values=f.get('values'))
     hit = [x for x in fs if x['kind'] == f['kind']]
     print('REPRODUCED' if hit else 'not reproduced', f['dialect'], repr(f['text'][:300]), f['kind'], hit[0]['detail'][:400] if hit else '')
     return 1 if hit else 0
